@@ -218,4 +218,6 @@ def run(ctx):
     from rules import c07 as _c07m
     _c07m.rule_memory_blocks_writers(ctx, R="C10/memory-blocks-writers")
     _c07m.rule_list_after_producers(ctx, R="C10/memory-list-as-produced")
-
+    # the small accessors and pass-through wrappers the rules above look through by name return what their names say (rules/accessors.py)
+    from rules import accessors as _acc
+    _acc.rule_accessors(ctx, "C10")
